@@ -89,7 +89,8 @@ func (x *Exec) atCallAssertionsCallee(s *State, site ssa.Instruction, calleeName
 	if len(s.frames) == 0 {
 		return
 	}
-	ct := x.P.contractFor(s.top().fn)
+	cf := x.clauseFrame(s)
+	ct := x.P.contractFor(cf.fn)
 	if ct == nil {
 		return
 	}
@@ -100,10 +101,10 @@ func (x *Exec) atCallAssertionsCallee(s *State, site ssa.Instruction, calleeName
 		if ac.Site != "" && !strings.Contains(x.label(s, site), ac.Site) {
 			continue
 		}
-		if s.top().fn == x.fn {
+		if cf.fn == x.fn {
 			x.clauseHit[ac] = true
 		}
-		env := x.specEnvFrame(s)
+		env := x.specEnvOf(s, cf)
 		for i, a := range args {
 			env.lets[fmt.Sprintf("arg%d", i)] = a
 		}
@@ -923,7 +924,7 @@ func mentionsBind(c *Contract, e ast.Expr) bool {
 }
 
 // autoInlinable: a repository function without contract that is small,
-// loop-free, straight (no go / select / defer) and not already on the stack.
+// loop-free, without go / defer / closures and not already on the stack.
 func (x *Exec) autoInlinable(s *State, fn *ssa.Function) bool {
 	if fn.Blocks == nil || len(s.frames) >= 3 || fn.Synthetic != "" {
 		return false
@@ -936,17 +937,37 @@ func (x *Exec) autoInlinable(s *State, fn *ssa.Function) bool {
 	if len(x.loopsOf(fn)) > 0 {
 		return false
 	}
+	return smallStraight(fn)
+}
+
+// smallStraight: the static part of autoInlinable (loop-freedom is checked by
+// the caller): at most 80 instructions in 16 blocks, no go / defer / closure.
+func smallStraight(fn *ssa.Function) bool {
+	if fn.Blocks == nil || fn.Synthetic != "" {
+		return false
+	}
 	n := 0
 	for _, b := range fn.Blocks {
 		for _, in := range b.Instrs {
 			n++
 			switch in.(type) {
-			case *ssa.Go, *ssa.Select, *ssa.Defer, *ssa.MakeClosure, *ssa.Panic:
+			case *ssa.Go, *ssa.Defer, *ssa.MakeClosure:
 				return false
 			}
 		}
 	}
-	return n <= 60 && len(fn.Blocks) <= 8
+	return n <= 80 && len(fn.Blocks) <= 16
+}
+
+func hasBackEdge(fn *ssa.Function) bool {
+	for _, b := range fn.Blocks {
+		for _, succ := range b.Succs {
+			if succ.Dominates(b) {
+				return true
+			}
+		}
+	}
+	return false
 }
 
 // checkParamsUnchanged: an at-call / at-send clause that names a parameter
